@@ -12,11 +12,20 @@
    OpExit turn ZOpen into ZClosed, so l_zip changes
    (closed_stays_counterexample).  Proved instead: closed_stays_flag (the flag
    part, unconditionally) and closed_stays_partial (both parts under
-   [ok_state st], which every reachable state satisfies). *)
-From Coq Require Import List NArith ZArith Bool Arith Lia.
+   [ok_state st], which every reachable state satisfies).
+
+   L6 (File identity: resources RRoot i / RColl i name DocxReader.files[i]):
+   ifiles_of_types_snd / _In / _stable (the indexed file lists are the lists of
+   Package.files_of_types, stable for equal paths), rels_file_of_snd,
+   rels_demand_unique, rels_demand_not_unique (File.rels_element),
+   isave_by_path_snd, save_files_last, save_files_paths_NoDup,
+   save_caches_roots (save touches the LAST File of each path),
+   shared_part_save_then_closed_read. *)
+From Coq Require Import List NArith ZArith Bool Arith Lia Sorted.
+From Coq Require String.
 From D2P Require Import Str Err Xml TableTypes Tables Fmt Bullets Merge Collector Walk Iter
-     Output Paths Package Content.
-From D2P Require Import BulletsFacts.
+     Output Paths Package Content Save.
+From D2P Require Import BulletsFacts SaveFacts.
 From D2P Require Import Lifecycle.   (* last: Lifecycle.step shadows Bullets.step *)
 Import ListNotations.
 Open Scope N_scope.
@@ -365,12 +374,12 @@ Proof. reflexivity. Qed.
 (* L5. cache monotonicity, purity of cached reads                       *)
 (* ================================================================== *)
 Lemma resource_eqb_refl : forall r, resource_eqb r r = true.
-Proof. destruct r; simpl; auto using str_eqb_refl. Qed.
+Proof. destruct r; simpl; auto using Nat.eqb_refl. Qed.
 
 Lemma resource_eqb_eq : forall r s, resource_eqb r s = true -> r = s.
 Proof.
   destruct r, s; simpl; intros H; try discriminate; auto;
-    apply str_eqb_eq in H; subst; auto.
+    apply Nat.eqb_eq in H; subst; auto.
 Qed.
 
 Lemma acquire_cache_mono : forall ds st st' e,
@@ -495,6 +504,408 @@ Proof.
   - intros r Hr. unfold close; simpl. eapply acquire_caches; eauto.
 Qed.
 
+(* ================================================================== *)
+(* L6. File objects: the indexed file list                              *)
+(* ================================================================== *)
+Lemma combine_seq_snd : forall (fs : list frec) k, map snd (combine (seq k (length fs)) fs) = fs.
+Proof.
+  induction fs as [|f r IH]; intros k; cbn [length seq combine map snd]; [reflexivity|].
+  rewrite IH. reflexivity.
+Qed.
+
+Lemma combine_seq_fst : forall (fs : list frec) k,
+  map fst (combine (seq k (length fs)) fs) = seq k (length fs).
+Proof.
+  induction fs as [|f r IH]; intros k; cbn [length seq combine map fst]; [reflexivity|].
+  rewrite IH. reflexivity.
+Qed.
+
+Lemma indexed_snd : forall fs, map snd (indexed fs) = fs.
+Proof. intros fs. apply combine_seq_snd. Qed.
+
+Lemma indexed_fst : forall fs, map fst (indexed fs) = seq 0 (length fs).
+Proof. intros fs. apply combine_seq_fst. Qed.
+
+Lemma combine_seq_In : forall (fs : list frec) k i f,
+  In (i, f) (combine (seq k (length fs)) fs) <-> (k <= i)%nat /\ nth_error fs (i - k) = Some f.
+Proof.
+  induction fs as [|g r IH]; intros k i f; cbn [length seq combine In].
+  - split; [intros []|]. intros [_ H]. destruct (i - k)%nat; discriminate.
+  - rewrite IH. split.
+    + intros [E|[Hle Hn]].
+      * inversion E; subst. split; [lia|]. rewrite Nat.sub_diag. reflexivity.
+      * split; [lia|]. replace (i - k)%nat with (S (i - S k)) by lia. exact Hn.
+    + intros [Hle Hn]. destruct (Nat.eq_dec i k) as [->|Hne].
+      * rewrite Nat.sub_diag in Hn. cbn [nth_error] in Hn. inversion Hn; subst. left; reflexivity.
+      * right. split; [lia|]. replace (i - k)%nat with (S (i - S k)) in Hn by lia. exact Hn.
+Qed.
+
+(* the index names the File: files[i] *)
+Lemma indexed_In : forall fs i f, In (i, f) (indexed fs) <-> nth_error fs i = Some f.
+Proof.
+  intros fs i f. unfold indexed. rewrite combine_seq_In, Nat.sub_0_r. split.
+  - intros [_ H]; exact H.
+  - intros H; split; [lia|exact H].
+Qed.
+
+Definition by_index (x y : nat * frec) : Prop := (fst x < fst y)%nat.
+
+Lemma combine_seq_sorted : forall (fs : list frec) k,
+  StronglySorted by_index (combine (seq k (length fs)) fs).
+Proof.
+  induction fs as [|f r IH]; intros k; cbn [length seq combine]; constructor; [apply IH|].
+  apply Forall_forall. intros [j g] Hin. apply combine_seq_In in Hin. unfold by_index; simpl. lia.
+Qed.
+
+Lemma filter_sorted : forall (p : nat * frec -> bool) l,
+  StronglySorted by_index l -> StronglySorted by_index (filter p l).
+Proof.
+  induction l as [|x r IH]; intros H; cbn [filter]; [constructor|].
+  inversion H as [|? ? Hs Hf]; subst. destruct (p x); [|apply IH; exact Hs].
+  constructor; [apply IH; exact Hs|]. apply Forall_forall. intros y Hy.
+  apply filter_In in Hy. destruct Hy as [Hy _]. rewrite Forall_forall in Hf. apply Hf. exact Hy.
+Qed.
+
+Lemma sorted_app_before : forall l1 (x : nat * frec) l2,
+  StronglySorted by_index (l1 ++ x :: l2) -> forall y, In y l1 -> by_index y x.
+Proof.
+  induction l1 as [|a r IH]; intros x l2 H y Hy; [destruct Hy|].
+  cbn [app] in H. inversion H as [|? ? Hs Hf]; subst. destruct Hy as [<-|Hy].
+  - rewrite Forall_forall in Hf. apply Hf. apply in_or_app. right; left; reflexivity.
+  - eapply IH; eauto.
+Qed.
+
+Lemma filter_map_snd : forall (p : frec -> bool) (l : list (nat * frec)),
+  map snd (filter (fun x => p (snd x)) l) = filter p (map snd l).
+Proof.
+  induction l as [|x r IH]; cbn [filter map]; [reflexivity|].
+  destruct (p (snd x)); cbn [map]; rewrite IH; reflexivity.
+Qed.
+
+Section SortSnd.
+  Variable leb : frec -> frec -> bool.
+  Let ileb (x y : nat * frec) : bool := leb (snd x) (snd y).
+
+  Lemma insert_sorted_snd : forall x l,
+    map snd (insert_sorted ileb x l) = insert_sorted leb (snd x) (map snd l).
+  Proof.
+    induction l as [|y r IH]; cbn [insert_sorted map]; [reflexivity|].
+    unfold ileb at 1. destruct (leb (snd x) (snd y)); cbn [map]; [reflexivity|].
+    rewrite IH. reflexivity.
+  Qed.
+
+  Lemma sort_by_snd : forall l, map snd (sort_by ileb l) = sort_by leb (map snd l).
+  Proof.
+    induction l as [|x r IH]; cbn [sort_by map]; [reflexivity|].
+    rewrite insert_sorted_snd, IH. reflexivity.
+  Qed.
+
+  Lemma insert_sorted_In : forall (x y : nat * frec) l,
+    In y (insert_sorted ileb x l) <-> y = x \/ In y l.
+  Proof.
+    induction l as [|z r IH]; cbn [insert_sorted].
+    - simpl. intuition.
+    - destruct (ileb x z); cbn [In]; [intuition|]. rewrite IH. intuition.
+  Qed.
+
+  Lemma sort_by_In_idx : forall (y : nat * frec) l, In y (sort_by ileb l) <-> In y l.
+  Proof.
+    induction l as [|x r IH]; cbn [sort_by]; [reflexivity|].
+    rewrite insert_sorted_In, IH. simpl. intuition.
+  Qed.
+End SortSnd.
+
+(* the indexed lists are the lists of the pure model, with identities *)
+Theorem ifiles_of_types_snd : forall fs tys,
+  map snd (ifiles_of_types fs tys) = files_of_types fs tys.
+Proof.
+  intros fs tys. unfold ifiles_of_types, files_of_types.
+  rewrite (sort_by_snd (fun x y => str_leb (f_path x) (f_path y))).
+  rewrite (filter_map_snd (fun f => mem_str (f_type f) tys)), indexed_snd. reflexivity.
+Qed.
+
+Theorem ifiles_of_type_snd : forall fs ty, map snd (ifiles_of_type fs ty) = files_of_type fs ty.
+Proof. intros fs ty. apply ifiles_of_types_snd. Qed.
+
+Theorem ifiles_of_types_In : forall fs tys i f,
+  In (i, f) (ifiles_of_types fs tys) <-> nth_error fs i = Some f /\ mem_str (f_type f) tys = true.
+Proof.
+  intros fs tys i f. unfold ifiles_of_types.
+  rewrite (sort_by_In_idx (fun x y => str_leb (f_path x) (f_path y))).
+  rewrite filter_In, indexed_In. reflexivity.
+Qed.
+
+(* stability: File objects with equal paths stay in DocxReader.files order *)
+Lemma str_ltb_irrefl : forall s, str_ltb s s = false.
+Proof.
+  induction s as [|c r IH]; cbn [str_ltb]; [reflexivity|]. rewrite N.ltb_irrefl. exact IH.
+Qed.
+
+Definition same_path_in_order (x y : nat * frec) : Prop :=
+  f_path (snd x) = f_path (snd y) -> (fst x < fst y)%nat.
+
+Lemma insert_sorted_stable : forall x l,
+  Forall (by_index x) l -> StronglySorted same_path_in_order l ->
+  StronglySorted same_path_in_order
+    (insert_sorted (fun x y => str_leb (f_path (snd x)) (f_path (snd y))) x l).
+Proof.
+  induction l as [|y r IH]; intros Hidx Hs; cbn [insert_sorted].
+  - constructor; constructor.
+  - inversion Hidx as [|? ? Hxy Hidx']; subst. inversion Hs as [|? ? Hs' Hf]; subst.
+    destruct (str_leb (f_path (snd x)) (f_path (snd y))) eqn:E.
+    + constructor; [exact Hs|]. apply Forall_forall. intros z Hz _.
+      rewrite Forall_forall in Hidx. apply (Hidx z Hz).
+    + constructor; [apply IH; assumption|]. apply Forall_forall. intros z Hz.
+      apply (proj1 (insert_sorted_In (fun a b => str_leb (f_path a) (f_path b)) x z r)) in Hz.
+      destruct Hz as [->|Hz].
+      * intros Hp. exfalso. unfold str_leb in E. rewrite Hp, str_ltb_irrefl in E. discriminate.
+      * rewrite Forall_forall in Hf. apply Hf. exact Hz.
+Qed.
+
+Lemma sort_by_stable : forall l,
+  StronglySorted by_index l ->
+  StronglySorted same_path_in_order
+    (sort_by (fun x y => str_leb (f_path (snd x)) (f_path (snd y))) l).
+Proof.
+  induction l as [|x r IH]; intros Hs; cbn [sort_by]; [constructor|].
+  inversion Hs as [|? ? Hs' Hf]; subst. apply insert_sorted_stable; [|apply IH; exact Hs'].
+  apply Forall_forall. intros z Hz.
+  apply (proj1 (sort_by_In_idx (fun a b => str_leb (f_path a) (f_path b)) z r)) in Hz.
+  rewrite Forall_forall in Hf. apply Hf. exact Hz.
+Qed.
+
+Theorem ifiles_of_types_stable : forall fs tys,
+  StronglySorted same_path_in_order (ifiles_of_types fs tys).
+Proof.
+  intros fs tys. unfold ifiles_of_types. apply sort_by_stable. apply filter_sorted.
+  apply combine_seq_sorted.
+Qed.
+
+(* ---------- File.rels_element: which File object is read ---------- *)
+Theorem rels_file_of_snd : forall fs f,
+  map snd (rels_file_of fs f)
+  = filter (fun x => str_eqb (f_target x) (rels_path (f_path f))) fs.
+Proof.
+  intros fs f. unfold rels_file_of.
+  rewrite (filter_map_snd (fun x => str_eqb (f_target x) (rels_path (f_path f)))), indexed_snd.
+  reflexivity.
+Qed.
+
+(* exactly one File has that Target: its root is demanded, and it is the File
+   Package.file_rels reads *)
+Theorem rels_demand_unique : forall fs f j rf,
+  rels_file_of fs f = [(j, rf)] ->
+  rels_demand fs f true = [RRoot j]
+  /\ nth_error fs j = Some rf
+  /\ f_target rf = rels_path (f_path f)
+  /\ filter (fun x => str_eqb (f_target x) (rels_path (f_path f))) fs = [rf].
+Proof.
+  intros fs f j rf H. split; [unfold rels_demand; rewrite H; reflexivity|].
+  assert (Hin : In (j, rf) (rels_file_of fs f)) by (rewrite H; left; reflexivity).
+  unfold rels_file_of in Hin. apply filter_In in Hin. destruct Hin as [Hin Ht].
+  split; [apply indexed_In; exact Hin|]. split; [apply str_eqb_eq; exact Ht|].
+  rewrite <- rels_file_of_snd, H. reflexivity.
+Qed.
+
+(* none or several: rels_element is None, nothing is read *)
+Theorem rels_demand_not_unique : forall fs f b,
+  length (filter (fun x => str_eqb (f_target x) (rels_path (f_path f))) fs) <> 1%nat ->
+  rels_demand fs f b = [].
+Proof.
+  intros fs f b H. rewrite <- rels_file_of_snd, map_length in H. unfold rels_demand.
+  destruct b; [|reflexivity]. destruct (rels_file_of fs f) as [|x [|y r]]; try reflexivity.
+  exfalso. apply H. reflexivity.
+Qed.
+
+(* ---------- DocxReader.save: the LAST File of each path ---------- *)
+Lemma dict_set_map_val : forall {V W} (g : V -> W) k v (d : list (str * V)),
+  map (fun kv => (fst kv, g (snd kv))) (dict_set k v d)
+  = dict_set k (g v) (map (fun kv => (fst kv, g (snd kv))) d).
+Proof.
+  intros V W g k v. induction d as [|[k0 v0] r IH]; cbn [dict_set map fst snd]; [reflexivity|].
+  destruct (str_eqb k k0); cbn [map fst snd]; [reflexivity|]. rewrite IH. reflexivity.
+Qed.
+
+Lemma isave_fold_snd : forall (l : list (nat * frec)) d,
+  map (fun kv => (fst kv, snd (snd kv)))
+      (fold_left (fun d x => dict_set (f_path (snd x)) x d) l d)
+  = fold_left (fun d f => dict_set (f_path f) f d) (map snd l)
+              (map (fun kv => (fst kv, snd (snd kv))) d).
+Proof.
+  induction l as [|x r IH]; intros d; cbn [fold_left map]; [reflexivity|].
+  rewrite IH, (dict_set_map_val snd). reflexivity.
+Qed.
+
+(* forgetting the identities gives the by_path dict of Save.save_with *)
+Theorem isave_by_path_snd : forall fs,
+  map (fun kv => (fst kv, snd (snd kv))) (isave_by_path fs) = by_path (filter is_overwritten fs).
+Proof.
+  intros fs. unfold isave_by_path, by_path. rewrite isave_fold_snd. cbn [map].
+  unfold is_overwritten.
+  rewrite (filter_map_snd (fun f => mem_str (f_type f) save_overwrite_types)), indexed_snd.
+  reflexivity.
+Qed.
+
+Theorem save_files_paths : forall fs,
+  map (fun x => f_path (snd x)) (save_files fs)
+  = map (fun pf => f_path (snd pf)) (by_path (filter is_overwritten fs)).
+Proof.
+  intros fs. rewrite <- isave_by_path_snd. unfold save_files. rewrite !map_map. reflexivity.
+Qed.
+
+Lemma isave_by_path_NoDup : forall fs, NoDup (map fst (isave_by_path fs)).
+Proof.
+  intros fs. pose proof (by_path_NoDup (filter is_overwritten fs)) as H.
+  rewrite <- isave_by_path_snd, map_map in H. cbn [fst] in H. exact H.
+Qed.
+
+Fixpoint ilast_with_path (p : str) (l : list (nat * frec)) : option (nat * frec) :=
+  match l with
+  | [] => None
+  | x :: r =>
+      match ilast_with_path p r with
+      | Some f => Some f
+      | None => if str_eqb (f_path (snd x)) p then Some x else None
+      end
+  end.
+
+Lemma ilast_with_path_None : forall p l,
+  ilast_with_path p l = None -> forall g, In g l -> f_path (snd g) <> p.
+Proof.
+  induction l as [|x r IH]; intros H g Hg; [destruct Hg|]. cbn [ilast_with_path] in H.
+  destruct (ilast_with_path p r) as [g'|] eqn:Hr; [discriminate|].
+  destruct (str_eqb (f_path (snd x)) p) eqn:E; [discriminate|].
+  destruct Hg as [<-|Hg]; [apply str_eqb_neq; exact E|apply IH; auto].
+Qed.
+
+Lemma ilast_with_path_spec : forall p l x,
+  ilast_with_path p l = Some x ->
+  exists l1 l2, l = l1 ++ x :: l2 /\ f_path (snd x) = p
+                /\ forall g, In g l2 -> f_path (snd g) <> p.
+Proof.
+  induction l as [|y r IH]; intros x H; cbn [ilast_with_path] in H; [discriminate|].
+  destruct (ilast_with_path p r) as [g|] eqn:Hr.
+  - inversion H; subst g. destruct (IH _ eq_refl) as [l1 [l2 [-> [Hp Hl2]]]].
+    exists (y :: l1), l2. split; [reflexivity|]. split; assumption.
+  - destruct (str_eqb (f_path (snd y)) p) eqn:E; [|discriminate]. inversion H; subst y.
+    exists [], r. split; [reflexivity|]. split; [apply str_eqb_eq; exact E|].
+    apply ilast_with_path_None. exact Hr.
+Qed.
+
+Lemma isave_get_gen : forall l (d : list (str * (nat * frec))) p,
+  dict_get p (fold_left (fun d x => dict_set (f_path (snd x)) x d) l d)
+  = match ilast_with_path p l with Some f => Some f | None => dict_get p d end.
+Proof.
+  induction l as [|x r IH]; intros d p; cbn [fold_left ilast_with_path]; [reflexivity|].
+  rewrite IH. destruct (ilast_with_path p r) as [g|]; [reflexivity|].
+  rewrite dict_get_set, (str_eqb_sym p (f_path (snd x))).
+  destruct (str_eqb (f_path (snd x)) p); reflexivity.
+Qed.
+
+(* save evaluates root_element of files[i] only if files[i] is an overwritten
+   part and no later overwritten File has the same path *)
+Theorem save_files_last : forall fs i f,
+  In (i, f) (save_files fs) ->
+  nth_error fs i = Some f /\ is_overwritten f = true
+  /\ forall j g, nth_error fs j = Some g -> is_overwritten g = true ->
+                 f_path g = f_path f -> (j <= i)%nat.
+Proof.
+  intros fs i f Hin. unfold save_files in Hin. apply in_map_iff in Hin.
+  destruct Hin as [[p x] [E Hin]]. cbn [snd] in E. subst x.
+  apply (in_nodup_dict_get _ _ _ (isave_by_path_NoDup fs)) in Hin.
+  unfold isave_by_path in Hin. rewrite isave_get_gen in Hin. cbn [dict_get] in Hin.
+  set (content := filter (fun x => mem_str (f_type (snd x)) save_overwrite_types) (indexed fs)) in *.
+  destruct (ilast_with_path p content) as [y|] eqn:Hl; [|discriminate]. inversion Hin; subst y.
+  destruct (ilast_with_path_spec _ _ _ Hl) as [l1 [l2 [Hc [Hp Hl2]]]]. cbn [snd] in Hp.
+  assert (Hmem : In (i, f) content) by (rewrite Hc; apply in_or_app; right; left; reflexivity).
+  unfold content in Hmem. apply filter_In in Hmem. destruct Hmem as [Hidx Hov]. cbn [snd] in Hov.
+  split; [apply indexed_In; exact Hidx|]. split; [exact Hov|].
+  intros j g Hj Hg Hpath.
+  assert (Hjg : In (j, g) content).
+  { unfold content. apply filter_In. split; [apply indexed_In; exact Hj|exact Hg]. }
+  assert (Hs : StronglySorted by_index content).
+  { unfold content. apply filter_sorted. apply combine_seq_sorted. }
+  rewrite Hc in Hjg, Hs. apply in_app_or in Hjg. destruct Hjg as [H1|[H2|H3]].
+  - pose proof (sorted_app_before _ _ _ Hs _ H1) as Hlt. unfold by_index in Hlt; simpl in Hlt. lia.
+  - inversion H2; subst. lia.
+  - exfalso. apply (Hl2 _ H3). cbn [snd]. congruence.
+Qed.
+
+(* one File per path *)
+Theorem save_files_paths_NoDup : forall fs, NoDup (map (fun x => f_path (snd x)) (save_files fs)).
+Proof.
+  intros fs. pose proof (isave_by_path_NoDup fs) as H.
+  assert (E : map fst (isave_by_path fs) = map (fun x => f_path (snd x)) (save_files fs)).
+  { unfold save_files. rewrite map_map. apply map_ext_in. intros [p [i f]] Hin. cbn [fst snd].
+    apply (in_nodup_dict_get _ _ _ H) in Hin.
+    unfold isave_by_path in Hin. rewrite isave_get_gen in Hin. cbn [dict_get] in Hin.
+    match type of Hin with context [ilast_with_path p ?l] =>
+      destruct (ilast_with_path p l) as [y|] eqn:Hl; [|discriminate] end.
+    inversion Hin; subst y. destruct (ilast_with_path_spec _ _ _ Hl) as [_ [_ [_ [Hp _]]]].
+    cbn [snd] in Hp. symmetry; exact Hp. }
+  rewrite <- E. exact H.
+Qed.
+
+(* the root of every File save writes is cached afterwards *)
+Theorem save_caches_roots : forall a o fs st st' i f,
+  step a o fs st OpSave = (st', OVal) -> In (i, f) (save_files fs) ->
+  cached (RRoot i) (l_cache st') = true.
+Proof.
+  intros a o fs st st' i f H Hin. cbn [step] in H.
+  destruct (acquire st [RFiles]) as [st1 e] eqn:Ha. destruct e as [ex|]; [inversion H|].
+  destruct (touch_zip st1) as [st2 e2] eqn:Ht. destruct e2 as [ex|]; [inversion H|].
+  destruct (acquire st2 (save_demands a fs)) as [st3 e3] eqn:Ha3.
+  destruct e3 as [ex|]; inversion H; subst st3.
+  eapply acquire_caches; [exact Ha3|]. unfold save_demands. apply in_concat.
+  exists (root_demands a fs (i, f)). split; [apply in_map; exact Hin|].
+  unfold root_demands. left. reflexivity.
+Qed.
+
+(* ---------- a header part related twice ---------- *)
+Section SharedPart.
+  Import String.StringSyntax.
+  Local Open Scope string_scope.
+  Let W : str := s2l "W".
+  Let wel (l : String.string) (text : option String.string) (kids : list rnode) : rnode :=
+    RE (Some s_w) (Some W) (s2l l) [(Some s_w, W)] [] (option_map s2l text) None kids.
+  Let rel (id ty tg : String.string) : rnode :=
+    RE None None (s2l "Relationship") []
+       [((None, s_Id), s2l id); ((None, s_Type), s2l ty); ((None, s_Target), s2l tg)]
+       None None [].
+  Let rels (ks : list rnode) : rnode :=
+    RE None (Some (s2l "t/relationships")) (s2l "Relationships") [] [] None None ks.
+  Let par (t : String.string) : rnode :=
+    wel "p" None [wel "r" None [wel "t" (Some t) []]].
+  (* word/header1.xml is the target of rId7 and of rId8 *)
+  Definition sp_archive : archive :=
+    [(s2l "_rels/.rels", MXml (rels [rel "rId1" "t/officeDocument" "word/document.xml"]));
+     (s2l "word/_rels/document.xml.rels",
+        MXml (rels [rel "rId7" "t/header" "header1.xml";
+                    rel "rId8" "t/header" "header1.xml"]));
+     (s2l "word/document.xml", MXml (wel "document" None [wel "body" None [par "body"]]));
+     (s2l "word/header1.xml", MXml (wel "hdr" None [par "head"]))].
+  Definition sp_opts : opts := {| o_html := false; o_dup := true |}.
+  Definition sp_header_path : str := s2l "word/header1.xml".
+End SharedPart.
+
+(* two File objects (files[2], files[3]) with the path of the header; save
+   evaluates the root of the second only.  After save(); close() a read of the
+   header goes through files[2] first, whose root was never parsed: ValueError.
+   When the header was read before, both collectors are cached and nothing is
+   needed from the archive. *)
+Example shared_part_save_then_closed_read :
+  exists fs,
+    files sp_archive = Ok fs
+    /\ map fst (filter (fun x => str_eqb (f_path (snd x)) sp_header_path) (indexed fs)) = [2; 3]%nat
+    /\ map fst (ifiles_of_type fs s_header) = [2; 3]%nat
+    /\ map fst (save_files fs) = [0; 1; 3; 4]%nat
+    /\ snd (run_ops sp_archive sp_opts fs l_init [OpSave; OpClose; OpRead (ARuns s_header)])
+       = [OVal; ONone; OErr ValueError]
+    /\ snd (run_ops sp_archive sp_opts fs l_init
+              [OpRead (ARuns s_header); OpSave; OpClose; OpRead (ARuns s_header)])
+       = [OVal; OVal; ONone; OVal].
+Proof. eexists. repeat split; vm_compute; reflexivity. Qed.
+
 Print Assumptions init_ok.
 Print Assumptions step_ok.
 Print Assumptions run_ok.
@@ -515,3 +926,14 @@ Print Assumptions acquire_all_cached.
 Print Assumptions read_after_close_cached.
 Print Assumptions read_after_close_needs.
 Print Assumptions read_twice.
+Print Assumptions ifiles_of_types_snd.
+Print Assumptions ifiles_of_types_In.
+Print Assumptions ifiles_of_types_stable.
+Print Assumptions rels_file_of_snd.
+Print Assumptions rels_demand_unique.
+Print Assumptions rels_demand_not_unique.
+Print Assumptions isave_by_path_snd.
+Print Assumptions save_files_last.
+Print Assumptions save_files_paths_NoDup.
+Print Assumptions save_caches_roots.
+Print Assumptions shared_part_save_then_closed_read.
